@@ -19,6 +19,9 @@ def run(tier):
     for cfg in LAGS[tier]:
         rl.run_lens("MarkovLag", cfg=cfg)
     out.add_replay(rl, "markovlag")
+    rw = replay.Replay("harness.modes:c10words", procs=4, chunk=4)
+    rw.run_lens("ScanWords", workers=4)
+    out.add_replay(rw, "scanwords")
     events = rp.events + rl.events
     jr, n_ok, n_bad, n_undef = judge_events(out, events, "C10", lambda e: "%s|%s" % (e["what"], e["sig"]))
     cov = check.replay_coverage(
@@ -29,6 +32,9 @@ def run(tier):
     cov["states"] += rl.states + jr.states
     cov["transitions"] += rl.transitions + jr.transitions
     cov["traces_validated_against_impl"] += rl.records
+    cov["states"] += rw.states
+    cov["transitions"] += rw.transitions
+    cov["scan_word_model"] = {"states": rw.states, "schedules_compared": rw.records, "verdicts": dict(rw.counts)}
     cov["lag_problems"] = rl.records
     cov["lag_verdicts"] = dict(rl.counts)
     cov["terms_judged_by_tlc"] = len(events)
